@@ -29,7 +29,9 @@
 (*   nseg[t], last[t][i] (0-based last position of segment i-1),            *)
 (*   size_after[t][k+1] / leaves_after[t][k+1] (local MMR size / leaves     *)
 (*   after k segments; k = 0 is the genesis-only store), cap[t] = 2^height, *)
-(*   complete[t][i] (the segment carries every leaf: no pruned data).       *)
+(*   complete[t][i] (the segment carries every leaf: no pruned data),       *)
+(*   cover[t][i] (segments present once segment i-1 is applied: i, or more  *)
+(*   when the segment is fully pruned and stands for a larger pruned root). *)
 (***************************************************************************)
 EXTENDS Naturals, Integers, Sequences, FiniteSets, TLC
 
@@ -109,9 +111,13 @@ Batch(t, from, n) == IF n = 0 \/ from \notin CachedIdx(t) THEN <<>> ELSE <<from>
 GoodOf(t, i) == (CHOOSE e \in cache[t] : e.idx = i).good
 ToSet(sq) == {sq[i] : i \in 1..Len(sq)}
 RECURSIVE Flags(_, _, _)
-\* segments below the applied count are re-applications (idempotent), the others extend the tree
+\* segments below the applied count are re-applications (idempotent), the others extend the tree.  A fully
+\* pruned segment is applied as the pruned subtree root above it (push_pruned_subtree), which stands for
+\* Cfg.cover[t][i+1] - i segments at once; the equally pruned segments after it are then re-applications.
 Flags(t, b, cnt) == IF b = <<>> THEN <<>>
-                    ELSE (IF Head(b) >= cnt THEN <<GoodOf(t, Head(b))>> ELSE <<>>) \o Flags(t, Tail(b), cnt)
+                    ELSE LET i  == Head(b)
+                             nc == IF i >= cnt /\ Cfg.cover[t][i+1] > cnt THEN Cfg.cover[t][i+1] ELSE cnt
+                         IN [j \in 1..(nc - cnt) |-> GoodOf(t, i)] \o Flags(t, Tail(b), nc)
 
 ApplyNext ==
   /\ finalised = "no"
